@@ -16,6 +16,8 @@ import (
 type Proc struct {
 	Impl     *types.Named
 	Methods  map[string]*ssa.Function
+	// LookupWrappers: helpers equivalent to Lookup for their callers (see Proc)
+	LookupWrappers map[*ssa.Function]bool
 	TableFld string // the session table field (map[string]*session)
 	Session  *types.Named
 	MuKey    string        // "Service.<mutex field>"
@@ -82,6 +84,73 @@ func (c *Ctx) Proc(rule string) *Proc {
 		c.R.Anchor(rule, "process:lookup", "no session lookup helper found")
 		return p
 	}
+	// lookup wrappers: methods that pass their own arguments to the lookup and hand its session back unchanged, failing
+	// whenever it failed (`activeGeneration`): they count as the lookup for every rule that speaks about it
+	p.LookupWrappers = map[*ssa.Function]bool{}
+	for _, fn := range c.P.ModuleFuncs() {
+		if prog.PkgPathOf(fn) != p.Impl.Obj().Pkg().Path() || fn == p.Lookup || fn.Blocks == nil || fn.Parent() != nil {
+			continue
+		}
+		if fn.Signature.Results().Len() != 2 || !types.Identical(fn.Signature.Results().At(0).Type(), p.Lookup.Signature.Results().At(0).Type()) || errResultIndex(fn) != 1 {
+			continue
+		}
+		lcs := Calls(fn, func(ci ssa.CallInstruction) bool { return ci.Common().StaticCallee() == p.Lookup })
+		if len(lcs) != 1 || len(c.tableAccesses(p, fn)) > 0 {
+			continue
+		}
+		lc, isCall := lcs[0].(*ssa.Call)
+		if !isCall || len(Calls(fn, func(ci ssa.CallInstruction) bool { _, ok := mutexOp(ci); return ok })) > 0 {
+			continue
+		}
+		// arguments passed through
+		okArgs := true
+		for i, a := range lc.Call.Args {
+			if i == 0 {
+				continue // receiver
+			}
+			if _, isParam := a.(*ssa.Parameter); !isParam {
+				// the context may be re-derived (span); the key must be the parameter itself
+				if i == len(lc.Call.Args)-1 {
+					okArgs = false
+				}
+			}
+		}
+		var lerr, lval ssa.Value
+		for _, r := range *lc.Referrers() {
+			if ex, ok := r.(*ssa.Extract); ok {
+				if ex.Index == 1 {
+					lerr = ex
+				} else {
+					lval = ex
+				}
+			}
+		}
+		okRet := okArgs && lerr != nil && lval != nil
+		for _, ret := range an.Returns(fn) {
+			if !okRet {
+				break
+			}
+			if isNilConst(unwrapErr(an.Result(ret, 1))) {
+				if an.Result(ret, 0) != lval {
+					okRet = false
+					break
+				}
+				target := ssa.Instruction(ret)
+				errs := map[ssa.Value]bool{lerr: true}
+				if x, _ := an.Cut(an.CutQuery{From: an.Entry(fn), Target: func(i ssa.Instruction) bool { return i == target },
+					AcceptEdge: func(b *ssa.BasicBlock, i int, a *an.Atom) bool { return errNilAtom(a, errs) }}); x != nil {
+					okRet = false
+				}
+				continue
+			}
+			if !isNilConst(an.Result(ret, 0)) || !errorSurelyNonNil(an.Result(ret, 1), ret, fn) {
+				okRet = false
+			}
+		}
+		if okRet {
+			p.LookupWrappers[fn] = true
+		}
+	}
 	// verify helper: bool function called in OnContribute with the received share
 	for _, ci := range Calls(p.Methods["OnContribute"], func(ci ssa.CallInstruction) bool {
 		f := ci.Common().StaticCallee()
@@ -102,6 +171,9 @@ func (c *Ctx) Proc(rule string) *Proc {
 }
 
 func (p *Proc) OK() bool { return p != nil && p.ok }
+
+// isLookup: fn is the session lookup or a wrapper that is equivalent to it for its callers.
+func (p *Proc) isLookup(fn *ssa.Function) bool { return fn != nil && (fn == p.Lookup || p.LookupWrappers[fn]) }
 
 // tableAccess is an instruction that reads or writes the session table.
 type tableAccess struct {
@@ -171,7 +243,8 @@ func (p *Proc) lookupSuccessAtom(a *an.Atom, lc *ssa.Call) bool {
 	if a.Op == "==" && ((a.LV == errV && isNilConst(a.RV)) || (a.RV == errV && isNilConst(a.LV))) {
 		return true
 	}
-	if a.Op == "false" && p.NotFound != nil {
+	if a.Op == "false" && p.NotFound != nil && lc.Call.StaticCallee() == p.Lookup {
+		// only the lookup itself has the closed error set {nil, not found}; a wrapper may fail with other errors
 		if call, ok := a.LV.(*ssa.Call); ok {
 			if f := call.Call.StaticCallee(); f != nil && (f.String() == "errors.Is" || f.String() == "github.com/pkg/errors.Is") {
 				return call.Call.Args[0] == errV && isLoadOfGlobal(call.Call.Args[1], p.NotFound)
@@ -260,7 +333,7 @@ func (c *Ctx) SessionLifecycle(prop string) {
 			continue
 		}
 		acc := c.tableAccesses(p, fn)
-		lookCalls := Calls(fn, func(ci ssa.CallInstruction) bool { return ci.Common().StaticCallee() == p.Lookup })
+		lookCalls := Calls(fn, func(ci ssa.CallInstruction) bool { return p.isLookup(ci.Common().StaticCallee()) })
 		if len(acc) == 0 && len(lookCalls) == 0 {
 			continue
 		}
@@ -277,7 +350,7 @@ func (c *Ctx) SessionLifecycle(prop string) {
 			}
 		}
 		h := Held(fn, p.MuKey)
-		if fn == p.Lookup {
+		if fn == p.Lookup || p.LookupWrappers[fn] {
 			// callee assumes the lock: checked at its call sites
 			nacc += len(acc)
 			continue
@@ -295,7 +368,7 @@ func (c *Ctx) SessionLifecycle(prop string) {
 			if h.Before[s] != 2 {
 				bad = true
 				what := "accessed"
-				if _, isCall := s.(*ssa.Call); isCall && s.(*ssa.Call).Call.StaticCallee() == p.Lookup {
+				if _, isCall := s.(*ssa.Call); isCall && p.isLookup(s.(*ssa.Call).Call.StaticCallee()) {
 					what = "looked up (helper that assumes the lock)"
 				}
 				c.R.Fail(rule1, Fn(fn), c.Pos(s), "the session table is "+what+" without the table mutex write-held on every path: two protocol messages for one account can interleave", "every table access under "+p.MuKey+".Lock()", nil)
@@ -316,7 +389,7 @@ func (c *Ctx) SessionLifecycle(prop string) {
 		F := p.Methods[name]
 		h := Held(F, p.MuKey)
 		var lcs []ssa.CallInstruction
-		lcs = Calls(F, func(ci ssa.CallInstruction) bool { return ci.Common().StaticCallee() == p.Lookup })
+		lcs = Calls(F, func(ci ssa.CallInstruction) bool { return p.isLookup(ci.Common().StaticCallee()) })
 		var acts []ssa.Instruction
 		for _, a := range c.tableAccesses(p, F) {
 			if a.Write {
@@ -362,7 +435,7 @@ func (c *Ctx) SessionLifecycle(prop string) {
 		F := p.Methods["OnPrepare"]
 		acc := c.tableAccesses(p, F)
 		var lc *ssa.Call
-		for _, ci := range Calls(F, func(ci ssa.CallInstruction) bool { return ci.Common().StaticCallee() == p.Lookup }) {
+		for _, ci := range Calls(F, func(ci ssa.CallInstruction) bool { return p.isLookup(ci.Common().StaticCallee()) }) {
 			lc, _ = ci.(*ssa.Call)
 		}
 		nins := 0
@@ -406,7 +479,7 @@ func (c *Ctx) SessionLifecycle(prop string) {
 	for _, name := range []string{"OnExecute", "OnContribute", "OnCommit", "OnAbort"} {
 		F := p.Methods[name]
 		var lc *ssa.Call
-		for _, ci := range Calls(F, func(ci ssa.CallInstruction) bool { return ci.Common().StaticCallee() == p.Lookup }) {
+		for _, ci := range Calls(F, func(ci ssa.CallInstruction) bool { return p.isLookup(ci.Common().StaticCallee()) }) {
 			lc, _ = ci.(*ssa.Call)
 		}
 		if lc == nil {
